@@ -226,6 +226,39 @@ example : (lokiOut (lit "{}") [⟨0, [], [[0], lit "\"1\"", lit "\"m\"", lit "{}
       (fun r => r.2.1.reqs.map (fun q => unframeLoki (lit "{}") q.body))
     = some [some [lit "[\"1\",\"m\",{}]", lit "[\"2\",\"\",{\"a\":[1]}]"]] := by decide
 
+/-! ### kafka: record values are views into one growing buffer -/
+
+/-- **kafka**: whatever the runtime's growth policy (`grow`) and the initial capacity (`lim`),
+    `ProduceSync` receives one record per deliverable event, in order, whose value — read through
+    the aliasing view at that moment — is the event's encoding: later appends and reallocations
+    never disturb an earlier record. (A batch never exceeds `batch_size`: batcher invariant.) -/
+theorem kafka_values (grow : Nat → Nat → Nat) (c : KCfg) (lim : Nat) (batch : List Ev)
+    (hsize : (deliverable batch).length ≤ c.batchSize) :
+    kafkaOut grow c lim batch = .ok ((deliverable batch).map (fun e => (kafkaTopic c e, e.enc))) := by
+  have hinv := kinv_foldl grow c (deliverable batch) ⟨kafkaStart lim, [], false⟩ [] (kinv_init c lim) (by simpa using hsize)
+  simp only [List.nil_append] at hinv
+  unfold kafkaOut kafkaAcc
+  rw [forEach_eq_foldl]
+  simp only [hinv.np, Bool.false_eq_true, if_false]
+  rw [read_allGood _ c hinv.fr _ _ hinv.good]
+
+/-- the views of one batch never overlap: each record ends before the next one starts
+    (same offsets even when a reallocation put them into different arrays) -/
+theorem kafka_values_disjoint (grow : Nat → Nat → Nat) (c : KCfg) (lim : Nat) (batch : List Ev)
+    (hsize : (deliverable batch).length ≤ c.batchSize) :
+    (kafkaAcc grow c lim batch).recs.Pairwise (fun r s => r.value.hi ≤ s.value.lo) := by
+  have hinv := kinv_foldl grow c (deliverable batch) ⟨kafkaStart lim, [], false⟩ [] (kinv_init c lim) (by simpa using hsize)
+  unfold kafkaAcc
+  rw [forEach_eq_foldl]
+  exact hinv.ord
+
+/-- capacity 2: the second event forces a reallocation; the first record still reads `[65, 66]`
+    from the abandoned array, the second and third share the new one -/
+example : (kafkaAcc growDouble ⟨8, [100], false⟩ 2 [⟨0, [65, 66], []⟩, ⟨0, [67], []⟩, ⟨0, [68], []⟩]).recs.map (·.value)
+      = [⟨0, 0, 2⟩, ⟨1, 2, 3⟩, ⟨1, 3, 4⟩]
+    ∧ (kafkaOut growDouble ⟨8, [100], false⟩ 2 [⟨0, [65, 66], []⟩, ⟨0, [67], []⟩, ⟨0, [68], []⟩]).toOption
+      = some [([100], [65, 66]), ([100], [67]), ([100], [68])] := by decide
+
 /-! ### buffer reuse -/
 
 /-- **buffer reuse**: what a batch produces does not depend on the worker data left by the
@@ -348,5 +381,34 @@ example : sendSplit 2 0 2 (offs 0 [[1], [2]]) [1, 2] [413, 413]
     the rest accepted -/
 example : (sendSplit 3 0 3 (offs 0 [[1], [2], [3]]) [1, 2, 3] [413, 413, 200]).toOption.map
       (fun r => (r.err, r.code, deliveredBytes r.reqs)) = some (true, 413, [1, 2, 3]) := by rfl
+
+/-! ### full statements that are false, with their witnesses -/
+
+/-- `file_frames` without the encoder assumption -/
+def FileFramesUnconditional : Prop :=
+  ∀ (lim : Nat) (wd : WD) (batch : List Ev),
+    unframeSep NL (fileOut lim wd batch).2 = some ((deliverable batch).map (·.enc))
+
+/-- the encoder assumption cannot be dropped: an encoding with a raw newline (insane-json
+    re-encodes `{"a":"x<LF>z"}` verbatim) splits into two lines
+    (replayed on the implementation: corpus/C19/file-raw-newline.case, known finding) -/
+theorem encoder_assumption_needed : ¬ FileFramesUnconditional := by
+  intro h
+  have := h 0 none [⟨0, lit "{\"a\":\"x\nz\"}", []⟩]
+  revert this
+  decide
+
+/-- the raw http encoder as it was before the fix (`return buf[:0]` for a missing field) -/
+def HttpRawFramesOld : Prop :=
+  ∀ (batch : List Ev), (∀ e ∈ deliverable batch, NL ∉ httpContent true e) →
+    unframeSep NL (httpRawBodyOld batch) = some ((deliverable batch).map (httpContent true))
+
+/-- before the fix: an event without the field wiped the events encoded before it
+    (replayed on the implementation: corpus/C19/http-raw-missing-field.case) -/
+theorem http_raw_old_counterexample : ¬ HttpRawFramesOld := by
+  intro h
+  have := h [⟨0, [], [lit "\"one\""]⟩, ⟨0, [], []⟩, ⟨0, [], [lit "2"]⟩] (by decide)
+  revert this
+  decide
 
 end FileD.PropsC19
